@@ -64,8 +64,9 @@ Section Parser.
         end
     end.
 
+  (* two's complement: a word at or above 2^(bits-1) denotes word - 2^bits *)
   Definition signed (bits : N) (n : N) : Z :=
-    if N.testbit n (bits - 1) then (Z.of_N n - 2 ^ Z.of_N bits)%Z else Z.of_N n.
+    if n <? 2 ^ (bits - 1) then Z.of_N n else (Z.of_N n - 2 ^ Z.of_N bits)%Z.
 
   Definition chunk (n : N) (s : stream) : option (list N * stream) :=
     if n <=? N.of_nat (length s) then Some (firstn (N.to_nat n) s, skipn (N.to_nat n) s) else None.
@@ -167,6 +168,9 @@ End Parser.
 
 (* one object from the front of a stream: nesting depth can never exceed the byte count *)
 Definition parse1 (s : list N) : option (tree * list N) := parse (S (length s)) s.
+
+(* n objects in a row from the front of a stream *)
+Definition parse_n (n : nat) (s : list N) : option (list tree * list N) := repeat_p parse1 n s.
 
 (* a whole stream as a sequence of objects (a primitiv file is such a sequence) *)
 Fixpoint parse_seq_fuel (fuel : nat) (s : list N) : option (list tree) :=
